@@ -550,7 +550,7 @@ instance (o : Fixed.Opts) (P : List Nat) (t : Fixed.Table) : Decidable (FixedSpe
   unfold FixedSpellable; infer_instance
 
 /-- the records handed to the writer -/
-def frecords (o : Fixed.Opts) (t : Fixed.Table) : List (List Field) :=
+def frecords (o : Fixed.Opts) (t : Fixed.Table) : List (List Fixed.Field) :=
   if o.withoutHeader then t.rows else headerFields t.header :: t.rows
 
 /-- **Refuse or spell** (fixed-length, explicit positions): the table is written if and only if
@@ -563,20 +563,20 @@ theorem fixed_refuse_or_spell (wd : Char → Nat) (o : Fixed.Opts) (P : List Nat
   unfold fileFixed encodeFixed
   simp only [ho]
   change (∃ b, (match (match frecords o t with
-      | [] => Except.error EncErr.dataEmpty
-      | recs => writeAll wd false o.lb P recs) with
+      | [] => Except.error Fixed.EncErr.dataEmpty
+      | recs => Fixed.writeAll wd false o.lb P recs) with
     | .ok cs => Except.ok (cs ++ endingChars o.ending)
     | .error e => .error e) = .ok b) ↔ _
   cases hr : frecords o t with
   | nil => simp
   | cons r rs =>
     simp only [ne_eq, reduceCtorEq, not_false_eq_true, true_and]
-    have hall := writeAll_isOk wd false o.lb P (r :: rs)
-    have hrec : ∀ x ∈ r :: rs, ((∃ s, writeRecord wd false P x = .ok s) ↔ (validFrom 0 P = true ∧ Fits wd 0 P x)) :=
+    have hall := Fixed.writeAll_isOk wd false o.lb P (r :: rs)
+    have hrec : ∀ x ∈ r :: rs, ((∃ s, Fixed.writeRecord wd false P x = .ok s) ↔ (validFrom 0 P = true ∧ Fits wd 0 P x)) :=
       fun x hx => writeFields_isOk wd false P x true 0 (hrect x (hr ▸ hx))
     constructor
     · rintro ⟨b, hb⟩
-      cases hw : writeAll wd false o.lb P (r :: rs) with
+      cases hw : Fixed.writeAll wd false o.lb P (r :: rs) with
       | error e => rw [hw] at hb; cases hb
       | ok txt =>
         have h := hall.mp ⟨txt, hw⟩
@@ -595,8 +595,8 @@ theorem fixed_roundtrip_partial (wd : Char → Nat) (hwd : ∀ c, 1 ≤ wd c) (h
   unfold fileFixed encodeFixed at hb
   simp only [ho] at hb
   change (match (match frecords o t with
-      | [] => Except.error EncErr.dataEmpty
-      | recs => writeAll wd false o.lb P recs) with
+      | [] => Except.error Fixed.EncErr.dataEmpty
+      | recs => Fixed.writeAll wd false o.lb P recs) with
     | .ok cs => Except.ok (cs ++ endingChars o.ending)
     | .error e => .error e) = .ok b at hb
   have hok : ∀ x ∈ frecords o t, x.length = P.length ∧ ∀ f ∈ x, NoBreak f.contents := by
@@ -615,13 +615,13 @@ theorem fixed_roundtrip_partial (wd : Char → Nat) (hwd : ∀ c, 1 ≤ wd c) (h
   | nil => rw [hr] at hb; cases hb
   | cons r more =>
     rw [hr] at hb hok
-    simp only [writeAll] at hb
-    cases hs1 : writeRecord wd false P r with
+    simp only [Fixed.writeAll] at hb
+    cases hs1 : Fixed.writeRecord wd false P r with
     | error e => rw [hs1] at hb; cases hb
     | ok s =>
       rw [hs1] at hb
       simp only at hb
-      cases hm : writeMore wd false o.lb P more with
+      cases hm : Fixed.writeMore wd false o.lb P more with
       | error e => rw [hm] at hb; cases hb
       | ok rest =>
         rw [hm] at hb
@@ -630,8 +630,8 @@ theorem fixed_roundtrip_partial (wd : Char → Nat) (hwd : ∀ c, 1 ≤ wd c) (h
         subst hb
         obtain ⟨σ, hσ, hrecs⟩ := Fixed.run_rows wd hwd hw P hv hP o.lb o.ending hend more r { cols := P } s rest
           hok hs1 hm
-        have hread : readAll wd P (s ++ rest ++ endingChars o.ending) = .ok σ := by
-          unfold readAll
+        have hread : Fixed.readAll wd P (s ++ rest ++ endingChars o.ending) = .ok σ := by
+          unfold Fixed.readAll
           rw [if_neg (by simp [hv]), List.append_assoc]
           exact hσ
         unfold decodeFixed
@@ -651,13 +651,14 @@ theorem fixed_roundtrip_partial (wd : Char → Nat) (hwd : ∀ c, 1 ≤ wd c) (h
           simp only [List.cons.injEq] at hr
           rw [← hr.1, ← hr.2]
           simp [rowOf, headerFields, Fixed.canonCell, List.map_map, Function.comp]
+          rfl
 
 /-- **Rectangular, for ALL inputs** (fixed-length): whatever the file contains and whatever the
     positions are, every record of the loaded view has as many fields as the header. -/
 theorem fixed_rectangular (wd : Char → Nat) (o : Fixed.Opts) (P : List Nat) (inp : List Char) (t : DTable)
     (h : decodeFixed wd o P inp = .ok t) : ∀ row ∈ t.rows, row.length = t.header.length := by
   unfold decodeFixed at h
-  cases hr : readAll wd P inp with
+  cases hr : Fixed.readAll wd P inp with
   | error e => rw [hr] at h; cases h
   | ok σ =>
     rw [hr] at h
@@ -674,7 +675,7 @@ theorem fixed_no_shift (wd : Char → Nat) (hwd : ∀ c, 1 ≤ wd c) (hw : wd ' 
     (hs : FixedSpellable o P t) (b : List Char) (hb : fileFixed wd o t = .ok b) :
     ∃ d, decodeFixed wd o P b = .ok d ∧ d.rows.length = t.rows.length ∧
       ∀ i j : Nat, (d.rows[i]?.bind fun (r : List DCell) => r[j]?)
-        = (t.rows[i]?.bind fun (r : List Field) => r[j]?).map (Fixed.canonCell o) := by
+        = (t.rows[i]?.bind fun (r : List Fixed.Field) => r[j]?).map (Fixed.canonCell o) := by
   refine ⟨Fixed.canon o t, fixed_roundtrip_partial wd hwd hw o P t ho hs b hb, by simp [Fixed.canon], ?_⟩
   intro i j
   simp only [Fixed.canon, List.getElem?_map]
@@ -683,14 +684,14 @@ theorem fixed_no_shift (wd : Char → Nat) (hwd : ∀ c, 1 ≤ wd c) (hw : wd ' 
   | some r => simp [List.getElem?_map]
 
 /-- F16: positions 3, 4; the record (`x⏎y`, `2`) fits its columns, is written `x⏎y2`, and reads back
-    as two records (x, NULL), (y, 2). -/
+    as two records (x, NULL), (y2, NULL). -/
 theorem fixed_linebreak_counterexample :
     let wd : Char → Nat := fun _ => 1
     let o : Fixed.Opts := { positions := some [3, 4], withoutHeader := true }
     let t : Fixed.Table := ⟨[['a'], ['b']], [[⟨['x', '\n', 'y'], .left⟩, ⟨['2'], .right⟩]]⟩
     fileFixed wd o t = .ok ['x', '\n', 'y', '2'] ∧
     decodeFixed wd o [3, 4] ['x', '\n', 'y', '2']
-      = .ok ⟨[['c', '1'], ['c', '2']], [[some ['x'], none], [some ['y'], some ['2']]]⟩ := by
+      = .ok ⟨[['c', '1'], ['c', '2']], [[some ['x'], none], [some ['y', '2'], none]]⟩ := by
   refine ⟨rfl, rfl⟩
 
 /-- F16: automatic positions, no header, a column of empty texts: refused. -/
